@@ -334,3 +334,29 @@ PROPS["C15"] = dict(mc=_rd_mc(), record=True, trace="Trace_C15", shards=12,
     rule="impl->spec: one event per input {format, mutation, schedule, outcomes}; distinct_nontrivial = distinct "
          "(format, alphabet, bytes).",
     assumptions=["a reader is driven until the first error / none, at most len+2 requests (more = hang)"])
+
+
+SMP_INV = ["MotifIsRecomputation", "BgIsRecomputation", "InRange", "OopsAllActive"]
+PROPS["C16"] = dict(
+    mc=[
+        dict(name="MC_Sampler_zoops", module="MC_Sampler", invariants=SMP_INV, actions=["Step"],
+             constants=dict(Data="<- D1", W=2, Mode='"zoops"', Asymmetric=False), quick=dict(MaxSteps=3), thorough=dict(MaxSteps=5)),
+        dict(name="MC_Sampler_oops", module="MC_Sampler", invariants=SMP_INV, actions=["Step"],
+             constants=dict(Data="<- D1", W=1, Mode='"oops"', Asymmetric=False), quick=dict(MaxSteps=3), thorough=dict(MaxSteps=5)),
+        dict(name="MC_Sampler_neg_asymmetric", module="MC_Sampler", invariants=["BgIsRecomputation"], expect_violation="BgIsRecomputation",
+             constants=dict(Data="<- D1", W=2, Mode='"zoops"', Asymmetric=True, MaxSteps=2)),
+    ],
+    record=True, trace="Trace_C16", shards=16,
+    level_text="A-layer: the alignment (active set, starts) is the state; motif counts, background counts and the counts "
+               "reported with an iteration are functions of it, a step touches only the held-out sequence. I-layer: the "
+               "incremental include / exclude bookkeeping is model-checked to equal the recomputation in every reachable "
+               "state (both modes, every held-out choice, new start and zoops decision; an exclude that forgets the "
+               "background as negative control). Recorded runs of the real sampler (DNA and protein, widths 1..20, one-"
+               "occurrence and zero-or-one mode with seeds / inertia / patience, each dispatcher arm forced for scoring, "
+               "220 (quick) / 1500 (thorough) steps, each run executed twice) are validated step by step by TLC.",
+    level_note="Which start is drawn and which sequences zoops keeps are free (not part of C16). Zoops with fewer than two "
+               "seed sequences panics before reporting any step (Background::from_counts of an empty alignment); C16 is "
+               "vacuous there and the driver uses >= 2 seeds. Background compared to 2^-16. Trusted: TLC, Json module, the "
+               "harness comparison of the two same-seed traces.",
+    rule="impl->spec: one history per run: smp_new, smp_step x steps, smp_det; distinct_nontrivial = distinct step events.",
+    assumptions=["StdRng::seed_from_u64 seeds derived from VERIF_SEED", "sequences are configured with wrap >= width (in contract)"])
